@@ -135,6 +135,12 @@ func (s *Service) getClusterPresence(ssid message.Ssid) []Info {
 
 			// Wait for all presence updates to come back (or a deadline)
 			for _, resp := range awaiter.Gather(1000 * time.Millisecond) {
+				// Skip an answer which announces more entries than it carries (an entry takes
+				// two bytes at least, and the decoder allocates what is announced up-front)
+				if entries, n := bin.Uvarint(resp); n <= 0 || entries > uint64(len(resp)-n) {
+					continue
+				}
+
 				info := []Info{}
 				if err := binary.Unmarshal(resp, &info); err == nil {
 					//logging.LogTarget("query", "response gathered", info)
